@@ -138,3 +138,10 @@ Theorem C14_inert_hypotheses_hold :
   inert_paragraph_b ($"a *b") [$"c* d"] = false /\ inert_paragraph_b ($"a [b](c)") [$"d"] = false.
 Proof. exact inert_paragraph_instance. Qed.
 Print Assumptions C14_inert_hypotheses_hold.
+
+(* is_closer in the hypothesis above, and follows, are the functions of core_tokens.py as the source has them now
+   (Gen/GenCore.v, regenerated on every run; Proofs/CoreRegen.v) *)
+From Mistletoe Require Import Gen.GenCore Proofs.CoreRegen.
+Theorem C14_closer_is_the_source : forall a b s i c, g_is_closer a b s = is_closer a b s /\ g_follows s i c = follows s i c.
+Proof. intros. split; [apply is_closer_regen|apply follows_regen]. Qed.
+Print Assumptions C14_closer_is_the_source.
